@@ -31,68 +31,84 @@ namespace nmtools::index
      * @param step_     step
      * @return constexpr auto 
      */
+    /**
+     * @brief Python's slice.indices(): normalize (start,stop,step) - each possibly None - against an axis of extent si.
+     *
+     * Follows CPython's PySlice_AdjustIndices: a negative start / stop counts from the end, out-of-range bounds are clamped
+     * (to [0,si] for a positive step, to [-1,si-1] for a negative step), omitted parts default to the respective end.
+     *
+     * @return tuple of (first index, step, number of elements), all as signed 64-bit
+     */
+    template <typename si_t, typename start_t, typename stop_t, typename step_t>
+    constexpr inline auto slice_indices(si_t si_, [[maybe_unused]] start_t start_, [[maybe_unused]] stop_t stop_, [[maybe_unused]] step_t step_)
+    {
+        using idx_t = ::nmtools::int64_t;
+        auto n = static_cast<idx_t>(si_);
+        auto step = idx_t{1};
+        if constexpr (!is_none_v<step_t>) {
+            step = static_cast<idx_t>(step_);
+        }
+        // a zero step is invalid (python raises), treat as 1 to avoid division by zero
+        if (step == 0) {
+            step = 1;
+        }
+        auto lower = (step < 0) ? idx_t{-1} : idx_t{0};
+        auto upper = (step < 0) ? (n - 1)   : n;
+
+        auto start = (step < 0) ? upper : lower;
+        if constexpr (!is_none_v<start_t>) {
+            start = static_cast<idx_t>(start_);
+            if (start < 0) {
+                start += n;
+                if (start < lower) {
+                    start = lower;
+                }
+            } else if (start > upper) {
+                start = upper;
+            }
+        }
+        auto stop = (step < 0) ? lower : upper;
+        if constexpr (!is_none_v<stop_t>) {
+            stop = static_cast<idx_t>(stop_);
+            if (stop < 0) {
+                stop += n;
+                if (stop < lower) {
+                    stop = lower;
+                }
+            } else if (stop > upper) {
+                stop = upper;
+            }
+        }
+        auto length = idx_t{0};
+        if (step > 0) {
+            if (start < stop) {
+                length = (stop - start - 1) / step + 1;
+            }
+        } else {
+            if (stop < start) {
+                length = (start - stop - 1) / (-step) + 1;
+            }
+        }
+        using result_t = nmtools_tuple<idx_t,idx_t,idx_t>;
+        return result_t{start,step,length};
+    } // slice_indices
+
+    /**
+     * @brief "range" covered by a slice along an axis, such that ceil(range / |step|) is the number of selected elements.
+     */
     template <typename si_t, typename start_t, typename stop_t, typename step_t>
     constexpr inline auto compute_range(si_t si, [[maybe_unused]] start_t start, stop_t stop_, [[maybe_unused]] step_t step_) // -> size_type
     {
-        // following numpy, stop is actually max(stop,shape_i)
-        [[maybe_unused]] auto stop = [&](){
-            if constexpr (is_none_v<stop_t>)
-                return si;
-            else {
-                using stop_type = meta::promote_index_t<stop_t,meta::remove_cvref_t<decltype(si)>>;
-                return static_cast<stop_type>(stop_) < static_cast<stop_type>(si) ?
-                    static_cast<stop_type>(stop_) : static_cast<stop_type>(si);
-            }
-        }();
-
-        // workaround to ambiguous call to std abs, mostly because need to refactor avoiding
-        // gcc 8 internal compiler error :|
-        // gcc 8 no longer supported, maybe cleanup this code
-        [[maybe_unused]] auto abs_ = [](auto v) { return v < 0 ? -v : v; };
-        // both start and stop is none, simply returh shape for this axis
-        if constexpr (is_none_v<start_t> && is_none_v<stop_t>) {
-            return si;
-        }
-        // need start + 1 for such following case: 2::-?
-        // for such case, allowed indices should be (0,1,2) (range of 3) hence start + 1
-        else if constexpr (meta::is_index_v<start_t> && is_none_v<stop_t> && meta::is_index_v<step_t>) {
-            return (step_ < 0 && start >= 0) ? start + 1 : si - start;
-        }
-        else if constexpr (meta::is_index_v<start_t> && is_none_v<stop_t>) {
-            return si - start;
-        }
-        // start is none, a.k.a. zero
-        else if constexpr (is_none_v<start_t> && meta::is_index_v<stop_t>) {
-            return (stop_ < 0 ? (si + stop_) : stop);
-        }
-        else /* if constexpr (meta::is_index_v<start_t> && meta::is_index_v<stop_t>) */ {
-            // to make sure we have consistent return types
-            using result_t = meta::promote_index_t<start_t,stop_t>;
-            // note that here we use "stop" instead of "stop_",
-            // also note that stop is already normalized
-            if ((stop < 0) && (start < 0)) {
-                return static_cast<result_t>((si - abs_(stop)) - (si - abs_(start)));
-            } else if ((stop < 0) && (start >= 0)) {
-                // sample case
-                // a[0:-1,...] with shape(a) = (2,3,2)
-                return static_cast<result_t>((si - abs_(stop)) - start);
-            } else if ((stop >= 0) && (start < 0)) {
-                return static_cast<result_t>(stop - (si - abs_(start)));
-            } else /* if ((stop >= 0) && (start >= 0)) */ {
-                // the following should works for both negative and positive step
-                if ((result_t)stop > (result_t)start) {
-                    return static_cast<result_t>(stop - start);
-                } else {
-                    return static_cast<result_t>(start - stop);
-                }
-            }
-        }
+        const auto normalized = slice_indices(si,start,stop_,step_);
+        const auto step   = nmtools::get<1>(normalized);
+        const auto length = nmtools::get<2>(normalized);
+        // NOTE: exact multiple of |step| so that the division by the step at the call site gives the python length
+        return static_cast<nm_size_t>(length * (step < 0 ? -step : step));
     }
 
     template <typename step_t>
     constexpr inline auto compute_step([[maybe_unused]] step_t step_)
     {
-        // NOTE: step_ is passed instead of captured to avoid clang error
         if constexpr (is_none_v<step_t>)
             return 1ul;
         else if constexpr (meta::is_unsigned_v<step_t>)
@@ -102,180 +118,21 @@ namespace nmtools::index
         }
     }
 
+    /**
+     * @brief source index along an axis for the i_i-th index of the sliced result: first + k*step (python semantics)
+     */
     template <typename indices_t, typename si_t, typename start_t, typename stop_t, typename step_t, typename i_i_t>
     constexpr inline auto compute_index(const indices_t& indices, si_t si, start_t start_, stop_t stop_, step_t step_, i_i_t i_i)
     {
         using index_t [[maybe_unused]]  = meta::get_index_element_type_t<indices_t>;
-        using sindex_t [[maybe_unused]] = meta::make_signed_t<index_t>;
         using result_t [[maybe_unused]] = meta::make_unsigned_t<index_t>;
-        [[maybe_unused]] auto start = start_; // just alias
-        // following numpy, stop is actually (stop,shape_i)
-        [[maybe_unused]] auto stop = [&](){
-            if constexpr (is_none_v<stop_t>)
-                return si;
-            // clip value, keep sign
-            else {
-                using common_t = meta::promote_index_t<stop_t,si_t>;
-                auto s = static_cast<common_t>(stop_) < static_cast<common_t>(si)
-                            ? static_cast<common_t>(stop_) : static_cast<common_t>(si);
-                        s = static_cast<common_t>(s) > static_cast<common_t>(-si)
-                            ? static_cast<common_t>(s) : static_cast<common_t>(-si);
-                return s;
-            }
-        }();
-        // alias
-        [[maybe_unused]] auto step = step_;
-        // (1) simplest case: all is none
-        if constexpr (is_none_v<start_t> && is_none_v<stop_t> && is_none_v<step_t>) {
-            // example case:
-            // a[:]
-            auto index = at(indices,i_i);
-            return (result_t)index;
-        }
-        // (2) only start is integer
-        else if constexpr (meta::is_index_v<start_t> && is_none_v<stop_t> && is_none_v<step_t>) {
-            // example case:
-            // a[0::]
-            // a[-1::]
-            auto index = (start >= 0 ? start : stop - start) + at(indices,i_i);
-            return (result_t)index;
-            // return {start >= 0 ? start : stop - start, 1};
-        }
-        // (3) start and stop is integer, can be positive or negative
-        else if constexpr (meta::is_index_v<start_t> && meta::is_index_v<stop_t> && is_none_v<step_t>) {
-            // example case:
-            // a[0:2:]
-            // a[-2:3:]
-            // a[0:-1:]
-            // a[-2:-1:]
-            auto s = index_t{0};
-            if (start >= 0 && stop > 0)
-                s = start;
-            else if (start < 0 && stop > 0)
-                s = stop + start;
-            else if (start >= 0 && stop < 0)
-                s = start;
-            else /* if (start < 0 && stop < 0) */
-                s = si + start;
-            auto index = s + at(indices,i_i);
-            return (result_t)index;
-        }
-        // (4) all three is integer, can be positive or negative
-        else if constexpr (meta::is_index_v<start_t> && meta::is_index_v<stop_t> && meta::is_index_v<step_t>) {
-            auto _start = index_t{0};
-            auto _step  = index_t{0};
-            // step is negative:
-            if /**/ (start >= 0 && stop >= 0 && step < 0) {
-                if (stop > 0) {
-                    _start = stop - 1;
-                    _step  = step;
-                } else {
-                    _start = start;
-                    _step  = step;
-                }
-                // return {stop - 1, step};
-            }
-            else if (start < 0 && stop > 0 && step < 0) {
-                _start = stop + start;
-                _step  = step;
-                // return {stop+start, step};
-            } else if (start >= 0 && stop < 0 && step < 0) {
-                _start = start;
-                _step  = step;
-                // return {start, step};
-            } else if (start < 0 && stop < 0 && step < 0) {
-                _start = si + start - 1;
-                _step  = step;
-                // return {si+start-1, step};
-            }
-            // step is positive:
-            else if (start >= 0 && stop > 0 && step > 0) {
-                _start = start;
-                _step  = step;
-                // return {start, step};
-            } else if (start < 0 && stop > 0 && step > 0) {
-                _start = stop + start;
-                _step  = step;
-                // return {stop+start, step};
-            } else if (start >= 0 && stop < 0 && step > 0) {
-                _start = start;
-                _step  = step;
-                // return {start, step};
-            } else /* if (start < 0 && stop < 0 && step > 0) */ {
-                _start = si + start;
-                _step  = step;
-                // return {si+start, step};
-            }
-            auto index = _start + at(indices,i_i) * _step;
-            return (result_t)index;
-        } else if constexpr (is_none_v<start_t> && meta::is_index_v<stop_t> && is_none_v<step_t>) {
-            auto index = at(indices,i_i);
-            return (result_t)index;
-            // return {0,1};
-        } else if constexpr (is_none_v<start_t> && meta::is_index_v<stop_t> && meta::is_index_v<step_t>) {
-            auto _start = index_t{0};
-            auto _step  = index_t{0};
-            if (stop > 0 && step > 0) {
-                _start = 0;
-                _step  = step;
-                // return {0,step};
-            } else if (stop > 0 && step < 0) {
-                _start = si;
-                _step  = step;
-                // return {si,step};
-            } else if (stop < 0 && step > 0) {
-                _start = 0;
-                _step  = step;
-                // return {0,step};
-            } else /* if (stop > 0 && step > 0) */ {
-                _start = 0;
-                _step  = step;
-                // return {0,step};
-            }
-            auto index = _start + at(indices,i_i) * _step;
-            return (result_t)index;
-        }
-        else if constexpr (is_none_v<start_t> && is_none_v<stop_t> && meta::is_index_v<step_t>) {
-            // example case:
-            // a[::-1]
-            auto _start = sindex_t{0};
-            auto _step  = sindex_t{0};
-            if (step < 0) {
-                _start = si - 1;
-                _step  = step;
-                // return {si-1,step};
-            } else {
-                _start = 0;
-                _step  = step;
-                // return {0,step};
-            }
-            auto index = _start + at(indices,i_i) * _step;
-            return (result_t)index;
-        }
-        else /* if constexpr (meta::is_index_v<start_t> && is_none_v<stop_t> && meta::is_index_v<step_t>) */ {
-            auto _start = index_t{0};
-            auto _step  = index_t{0};
-            if (start >= 0 && step > 0) {
-                _start = start;
-                _step  = step;
-                // return {start, step};
-            } else if (start >= 0 && step < 0) {
-                _start = start;
-                _step  = step;
-                // return {start, step};
-            } else if (start < 0 && step > 0) {
-                _start = si + start;
-                _step  = step;
-                // return {si+start,step};
-            } else /* if (start < 0 && step < 0) */ {
-                _start = start;
-                _step  = step;
-                // return {start, step};
-            }
-            auto index = _start + at(indices,i_i) * _step;
-            return (result_t)index;
-        }
-    };
+        using idx_t = ::nmtools::int64_t;
+        const auto normalized = slice_indices(si,start_,stop_,step_);
+        const auto first = nmtools::get<0>(normalized);
+        const auto step  = nmtools::get<1>(normalized);
+        auto index = first + static_cast<idx_t>(at(indices,i_i)) * step;
+        return (result_t)index;
+    } // compute_index
 
     /**
      * @brief Either-aware type check for index type
@@ -470,7 +327,8 @@ namespace nmtools::index
             }();
             auto s = compute_range(shape_i,start,stop,step);
             auto step_ = compute_step(step);
-            return static_cast<size_type>(math::constexpr_ceil(static_cast<float>(s) / step_));
+            // NOTE: s is an exact multiple of the step (integer division, a float quotient loses precision for large extents)
+            return static_cast<size_type>(s / static_cast<decltype(s)>(step_));
         };
 
         auto res = result_t {};
@@ -989,7 +847,8 @@ namespace nmtools::index
                 // finally the resulting shape for corresponding indices
                 // is simply the range divided by the step
                 // use constexpr_ceil to allow clang compile this
-                at(res,r_i++) = static_cast<size_type>(math::constexpr_ceil(static_cast<float>(s) / step));
+                // NOTE: s is an exact multiple of the step (integer division, a float quotient loses precision for large extents)
+                at(res,r_i++) = static_cast<size_type>(s / static_cast<decltype(s)>(step));
             } else /* if constexpr (meta::is_index_v<slice_t>) */ {
                 // only reduce the dimension,
                 // doesn't contributes to shape computation
